@@ -18,9 +18,12 @@ MUTANTS = {
   ('m5_linecache_record_not_repaired', 'malt/pyct/inspect_utils.py',
    "    _fix_linecache_record(obj)\n    lines, lnum",
    "    lines, lnum"),
-  ('m6_unfold_inserts_space', 'malt/pyct/parser.py',
-   "  return code_string.replace('\\\\\\n', '')",
-   "  return code_string.replace('\\\\\\n', ' ')"),
+  # (m6 re-based on the token-aware unfolding introduced by the F10 repair)
+  # the old form (replace backslash-newline by a blank everywhere) no longer applies and its direct
+  # translation (a blank at a real continuation) is an equivalent mutant; this is the nearest live one
+  ('m6_unfold_first_row_of_string_unprotected', 'malt/pyct/parser.py',
+   "      elif tok.type == tokenize.STRING or tok.type == fstring_middle:\n        protected_rows.update(range(tok.start[0], tok.end[0]))",
+   "      elif tok.type == tokenize.STRING or tok.type == fstring_middle:\n        protected_rows.update(range(tok.start[0] + 1, tok.end[0]))"),
   ('m7_leading_whitespace_spaces_only', 'malt/pyct/parser.py',
    "_LEADING_WHITESPACE = re.compile(r'\\s*')",
    "_LEADING_WHITESPACE = re.compile(r' *')"),
@@ -30,5 +33,22 @@ MUTANTS = {
   ('m9_lambda_first_on_line_wins', 'malt/pyct/parser.py',
    "  if len(candidates) == 1:\n    (node, minl, maxl), = candidates  # pylint:disable=unbalanced-tuple-unpacking",
    "  if len(candidates) >= 1:\n    (node, minl, maxl) = candidates[0]"),
+  # round 2: shapes added with the PEP 701 field grammar and the wrapped-lambda arrangements
+  # (m10-m13 were rewritten after the FC15h / FC15j repairs replaced the code they changed)
+  ('m10_fstring_literal_parts_unprotected', 'malt/pyct/parser.py',
+   "      elif tok.type == tokenize.STRING or tok.type == fstring_middle:",
+   "      elif tok.type == tokenize.STRING:"),
+  ('m11_every_row_of_an_fstring_protected', 'malt/pyct/parser.py',
+   "  fstring_middle = getattr(tokenize, 'FSTRING_MIDDLE', None)\n  try:\n    for tok in tokenize.generate_tokens(io.StringIO(code_string).readline):\n",
+   "  fstring_middle = getattr(tokenize, 'FSTRING_MIDDLE', None)\n  fstart = []\n  try:\n    for tok in tokenize.generate_tokens(io.StringIO(code_string).readline):\n      if tok.type == getattr(tokenize, 'FSTRING_START', None):\n        fstart.append(tok.start[0])\n      elif tok.type == getattr(tokenize, 'FSTRING_END', None) and fstart:\n        protected_rows.update(range(fstart.pop(), tok.end[0]))\n"),
+  ('m12_lambda_parameters_of_the_unwrapped_callable', 'malt/pyct/parser.py',
+   "  code = func.__code__\n  names = code.co_varnames",
+   "  code = inspect.unwrap(func).__code__\n  names = code.co_varnames"),
+  ('m13_lambda_positional_parameters_via_getfullargspec', 'malt/pyct/parser.py',
+   "  if node_args != tuple(names[:num_args]):",
+   "  if node_args != tuple(inspect.getfullargspec(func).args):"),
+  ('m14_islambda_trusts_the_function_name', 'malt/pyct/inspect_utils.py',
+   "  return f.__code__.co_name == '<lambda>'",
+   "  return f.__name__ == '<lambda>' or f.__code__.co_name == '<lambda>'"),
  ],
 }
